@@ -603,6 +603,10 @@ func encodeXtext(raw string) string {
 			out.WriteRune(ch)
 		default:
 			out.WriteRune('+')
+			if ch < 0x10 {
+				// hexchar is "+" followed by exactly two hex digits
+				out.WriteRune('0')
+			}
 			out.WriteString(strings.ToUpper(strconv.FormatInt(int64(ch), 16)))
 		}
 	}
